@@ -9,7 +9,7 @@ RULE = (
     "nonterminal X, cfg.treesum(), cfg.expected_length (Float) and, on finite languages, the sum of cfg(x) over the whole "
     "language are compared with the reference least fixed point (exact linear solve per SCC over Q, Kleene+Newton for "
     "non-linear SCCs, Kleene iteration for idempotent semirings) under native / random / fifo agenda pop orders and "
-    "several hash seeds. evaluations = per-nonterminal decisions; non-trivial = recursive grammar (some SCC with a cycle)."
+    "several hash seeds; a quarter of the cases evaluate a partly built grammar first, add the remaining rules and evaluate again. evaluations = per-nonterminal decisions; non-trivial = recursive grammar (some SCC with a cycle)."
 )
 ASSUMPTIONS = [
     "rv/ref/cfgref.py least-fixed-point solver is correct",
@@ -36,7 +36,7 @@ def gates(tier):
                         "cfg.expected_length": 40 * k},
         "shapes": {c: 3 * k for c in ["nonlinear_scc", "repeated_symbol", "duplicate_rule", "unary_cycle", "nullable_cycle",
                                       "recursive", "finite_language", "sr:Log", "sr:MaxPlus", "sr:Expectation", "sr:Entropy",
-                                      "sr:Real", "sr:Boolean", "sr:MaxTimes", "finite-language-sum"]},
+                                      "sr:Real", "sr:Boolean", "sr:MaxTimes", "finite-language-sum", "staged-build"]},
         "min_events": {"agenda.reordered": 200 * k},
         "min_hashseeds": 2,
     }
@@ -52,7 +52,10 @@ def gen_case(rng, spec):
     R = rng.choice(SEMIRINGS)
     if R == "Q" and "recursive" in an["classes"]:
         R = rng.choice(["Float", "Log", "MaxPlus"])
-    return {"g": {k: g[k] for k in ("S", "V", "rules")}, "R": R}
+    case = {"g": {k: g[k] for k in ("S", "V", "rules")}, "R": R}
+    if rng.random() < 0.25 and len(g["rules"]) >= 3:
+        case["staged"] = rng.randint(1, len(g["rules"]) - 1)
+    return case
 
 
 def run_case(case, ctx):
@@ -80,9 +83,26 @@ def run_case(case, ctx):
     fp = codec.fingerprint(case)
     ctx.case(fp, "recursive" in cls, list(cls) + [f"sr:{R}"])
     ctx.sample({"case": case, "classes": cls, "Z_S": lib.want_value(R, Z[g["S"]]) if not pair else [Z[g["S"]], rr[g["S"]]]})
-    ok, cfg = ctx.call("cfg.agenda()[X]", case, lib.build_cfg, g, R)
-    if not ok:
-        return
+    if case.get("staged"):
+        # history: evaluate a grammar that is only partly built, add the remaining rules, evaluate again.
+        # agenda()/treesum() must describe the rules the grammar has when they are called.
+        k = case["staged"]
+        part = dict(g, rules=g["rules"][:k])
+        ok, cfg = ctx.call("cfg.agenda()[X]", case, lib.build_cfg, part, R)
+        if not ok:
+            return
+        ok, _ = ctx.call("cfg.agenda()[X]", case, cfg.agenda)
+        ok2, _ = ctx.call("cfg.treesum()", case, cfg.treesum)
+        if not (ok and ok2):
+            return
+        for idx, (w, h, b) in enumerate(g["rules"]):
+            if idx >= k:
+                cfg.add(lib.lib_weight(R, w, idx), h, *b)
+        ctx.shape["staged-build"] += 1
+    else:
+        ok, cfg = ctx.call("cfg.agenda()[X]", case, lib.build_cfg, g, R)
+        if not ok:
+            return
     exact = R in ("Boolean", "MaxTimes", "MaxPlus", "Q")
 
     def cmp(have, X):
